@@ -40,8 +40,9 @@ RULE = (
     "then a drawn subset of its file objects is removed while its .dir object stays; more single-file "
     "targets over directory workspaces in that arm), "
     "optionally target objects dropped from the cache, configured link types, relink on/off, state "
-    "on/off and prompt None / always-decline (plus a small accepting arm that only checks that no "
-    "PromptError is raised), force=False. Oracle: byte snapshots of the workspace before/after; every "
+    "on/off and prompt None / declining with any falsy answer (False, None, 0, '', [], 0.0) / raising "
+    "EOFError or KeyboardInterrupt (must propagate, nothing touched), plus a small accepting arm with "
+    "truthy answers that only checks that bool True is taken as confirmation, force=False. Oracle: byte snapshots of the workspace before/after; every "
     "byte string that is no longer at its path must exist afterwards as an intact object "
     "(name == hashlib md5 of the bytes) in the cache directory read with os.walk; if an unrecoverable "
     "conflicting file was present the call must refuse (raise), and a PromptError's path must still "
@@ -75,6 +76,11 @@ ASSUMPTIONS = [
     "left alone by the code - and a bare OSError (file/directory in the way) counts as a refusal",
     "hashlib and os.walk are the trusted reference",
 ]
+
+# a declining prompt may answer with any falsy value, a confirming one with any truthy value
+DECLINE_ANSWERS = [False, None, 0, "", [], 0.0]
+ACCEPT_ANSWERS = [True, 1, "y", "yes", "anything-truthy"]
+PROMPT_RAISES = [EOFError, KeyboardInterrupt]
 
 LINK_TYPES = [["copy"], ["hardlink"], ["symlink"], ["reflink", "copy"], ["hardlink", "copy"],
               ["symlink", "copy"]]
@@ -145,7 +151,10 @@ def cases(draw):
         "edits": draw(st.lists(_edit(), max_size=5)),
         "drop": draw(st.sampled_from([[], [], [], [0], [1], [0, 2]])),
         "relink": draw(st.booleans()),
-        "prompt": draw(st.sampled_from(["none"] * 4 + ["decline"] * 4 + ["accept"])),
+        "prompt": draw(st.sampled_from(["none"] * 4 + ["decline"] * 4 + ["accept", "raise"])),
+        # what the prompt callable hands back / raises: index into DECLINE_ANSWERS / ACCEPT_ANSWERS /
+        # PROMPT_RAISES (taken modulo the table size)
+        "answer": draw(st.sampled_from([0, 0, 1, 2, 3, 4, 5])),
         "state": draw(st.sampled_from([False, False, False, True])),
     }
     # the workspace was hashed through the SAME State under the other md5 flavour (a legacy
@@ -649,9 +658,18 @@ def run_checkout_case(case, ctx):  # noqa: C901, PLR0912, PLR0915
 
             prompts = []
 
+            ans = case.get("answer", 0)
+            raised_by_prompt = []
+
             def prompt(msg):
                 prompts.append(msg)
-                return case["prompt"] == "accept"
+                if case["prompt"] == "raise":
+                    etype = PROMPT_RAISES[ans % len(PROMPT_RAISES)]
+                    raised_by_prompt.append(etype)
+                    raise etype("harness prompt cannot ask")
+                if case["prompt"] == "accept":
+                    return ACCEPT_ANSWERS[ans % len(ACCEPT_ANSWERS)]
+                return DECLINE_ANSWERS[ans % len(DECLINE_ANSWERS)]
 
             outcome, exc = "returned", None
             try:
@@ -659,6 +677,10 @@ def run_checkout_case(case, ctx):  # noqa: C901, PLR0912, PLR0915
                          prompt=None if case["prompt"] == "none" else prompt)
             except PromptError as e:
                 outcome, exc = "PromptError", e
+            except (EOFError, KeyboardInterrupt) as e:
+                if not raised_by_prompt:
+                    raise
+                outcome, exc = "raised:" + type(e).__name__, e
             except (LinkError, CheckoutError) as e:
                 outcome, exc = type(e).__name__, e
             except Exception as e:  # noqa: BLE001
@@ -688,7 +710,8 @@ def run_checkout_case(case, ctx):  # noqa: C901, PLR0912, PLR0915
 
         viols = []
         if case["prompt"] == "accept":
-            if outcome == "PromptError":
+            # (only the canonical bool True is asserted to confirm; other truthy answers are counted)
+            if outcome == "PromptError" and ACCEPT_ANSWERS[ans % len(ACCEPT_ANSWERS)] is True:
                 viols.append(Viol("accepted-prompt-refused",
                                   f"prompt answered yes but PromptError({exc.path!r}) was raised"))
         else:
@@ -717,6 +740,10 @@ def run_checkout_case(case, ctx):  # noqa: C901, PLR0912, PLR0915
                 viols.append(Viol(
                     f"no-refusal:{unrec[rel]}",
                     f"unrecoverable conflicting file {rel!r} present, yet checkout returned normally"))
+            # (2b) an exception raised by the prompt callable itself (EOF, Ctrl-C) propagates as it is
+            if raised_by_prompt and outcome != "raised:" + raised_by_prompt[0].__name__:
+                viols.append(Viol("prompt-exception-swallowed",
+                                  f"the prompt raised {raised_by_prompt[0].__name__} but checkout -> {outcome}"))
             # (3) the path named by PromptError still holds its bytes
             if outcome == "PromptError":
                 p = exc.path
@@ -737,6 +764,13 @@ def run_checkout_case(case, ctx):  # noqa: C901, PLR0912, PLR0915
         labels.add("link=" + "+".join(case["types"]))
         labels.add("relink" if case["relink"] else "no-relink")
         labels.add("prompt=" + case["prompt"])
+        if prompts:
+            if case["prompt"] == "decline":
+                labels.add("declined-with=" + repr(DECLINE_ANSWERS[ans % len(DECLINE_ANSWERS)]))
+            elif case["prompt"] == "accept":
+                labels.add("accepted-with=" + repr(ACCEPT_ANSWERS[ans % len(ACCEPT_ANSWERS)]))
+            elif case["prompt"] == "raise":
+                labels.add("prompt-raised=" + raised_by_prompt[0].__name__)
         labels.add("target=" + case["target_kind"])
         if case.get("shape"):
             labels.add("shape=" + case["shape"])
